@@ -13,7 +13,7 @@ Case kinds
         symbols_to_dataframe, then dataframe_to_symbols
   {'kind': 't2s', 'cols': [[name, pandas dtype, [cells]]]}      dataframe_to_symbols of a hand-made frame (malformed stream)
 Cells (JSON): ['i', n] ['fi', n] (integral float) ['ff', m, e] (m / 2**e, m odd) ['nz'] (-0.0) ['nan'] ['pinf'] ['ninf'] ['none']
-  ['b', bool] ['s', str] ['tup', a, b] ['per', freq code, ordinal] ['ts', ns].
+  ['b', bool] ['s', str] ['tup', a, b] (a, b int or str: a row of a two-level MultiIndex) ['per', freq code, ordinal] ['ts', ns] ['td', ns].
 K_table runs the extracted Gallina model (Data/Table.v: model_to_table, from_table, linker_to_tables, symbols_to_table,
 table_to_symbols) on the same inputs and compares the complete canonical observation.  The oracle is the property's text
 evaluated on the implementation's observations only."""
@@ -81,8 +81,10 @@ def enc(x):
         return ['ff', n, d.bit_length() - 1]
     if isinstance(x, str):
         return ['s', str(x)]
-    if isinstance(x, tuple) and len(x) == 2 and all(isinstance(v, int) for v in x):
-        return ['tup', int(x[0]), int(x[1])]
+    if isinstance(x, tuple) and len(x) == 2 and all(isinstance(v, (int, np.integer, str)) and not isinstance(v, (bool, np.bool_)) for v in x):
+        return ['tup'] + [str(v) if isinstance(v, str) else int(v) for v in x]
+    if isinstance(x, pd.Timedelta):
+        return ['td', int(x.value)]
     if isinstance(x, pd.Period):
         return ['per', FREQ.get(x.freqstr[0], 0), int(x.ordinal)]
     if isinstance(x, pd.Timestamp):
@@ -114,8 +116,10 @@ def dec(j):
     if k == 's':
         return str(j[1])
     if k == 'tup':
-        return (int(j[1]), int(j[2]))
+        return (j[1], j[2])
     import pandas as pd
+    if k == 'td':
+        return pd.Timedelta(int(j[1]), unit='ns')
     if k == 'per':
         return pd.Period(ordinal=int(j[2]), freq=FREQ_INV[j[1]])
     if k == 'ts':
@@ -137,10 +141,12 @@ def sx_cell(j):
         return k
     if k == 'b':
         return '(b %d)' % (1 if j[1] else 0)
-    if k in ('i', 'fi', 'ts'):
+    if k in ('i', 'fi', 'ts', 'td'):
         return '(%s %d)' % (k, j[1])
-    if k in ('ff', 'tup', 'per'):
+    if k in ('ff', 'per'):
         return '(%s %d %d)' % (k, j[1], j[2])
+    if k == 'tup':
+        return '(tup %s %s)' % tuple('(s %s)' % hexs(a) if isinstance(a, str) else '(i %d)' % a for a in j[1:3])
     if k == 's':
         return '(s %s)' % hexs(j[1])
     raise AssertionError(j)
@@ -152,6 +158,8 @@ def sx_cells(cs):
 
 def canon_cell(j):
     """JSON cell as the model driver prints it (strings in hex)."""
+    if j[0] == 'tup':
+        return ['tup'] + [hexs(a) if isinstance(a, str) else a for a in j[1:3]]
     return ['s', hexs(j[1])] if j[0] == 's' else list(j)
 
 
@@ -176,9 +184,21 @@ def build_span(spec):
         return pd.period_range(start=pd.Period(ordinal=spec['start'], freq=spec['freq']), periods=spec['n'], freq=spec['freq'])
     if t == 'datetime':
         return pd.date_range(start=pd.Timestamp(spec['start']), periods=spec['n'], freq=spec['freq'])
+    # pandas index objects with explicit labels in any order (repeats allowed)
+    if t == 'multi':
+        return pd.MultiIndex.from_tuples([dec(x) for x in spec['labels']], names=['year', 'term'])
+    if t == 'tdindex':
+        return pd.TimedeltaIndex([dec(x) for x in spec['labels']])
+    if t == 'perindex':
+        return pd.PeriodIndex([dec(x) for x in spec['labels']], freq=spec['freq'])
+    if t == 'dtindex':
+        return pd.DatetimeIndex([dec(x) for x in spec['labels']])
+    if t == 'objindex':
+        return pd.Index([dec(x) for x in spec['labels']], dtype=object)
     raise AssertionError(spec)
 
 
+EXPLICIT = ('list', 'tuple', 'nparr', 'pdindex', 'multi', 'tdindex', 'perindex', 'dtindex', 'objindex')
 _LAB = {}
 
 
@@ -186,7 +206,7 @@ def span_labels(spec):
     t = spec['type']
     if t == 'range':
         return [['i', spec['start'] + spec['step'] * i] for i in range(spec['n'])]
-    if t in ('list', 'tuple', 'nparr', 'pdindex'):
+    if t in EXPLICIT:
         return [list(x) for x in spec['labels']]
     key = lib.jhash(spec)
     if key not in _LAB:
@@ -207,8 +227,14 @@ def sx_span(spec):
         kinds = {x[0] for x in spec['labels']}
         d = 'i64' if kinds == {'i'} else 'str' if kinds == {'s'} else 'obj'
         return '(pandas index %s %s)' % (d, labs)
-    if t == 'period':
+    if t in ('period', 'perindex'):
         return '(pandas period (per %d) %s)' % (FREQ[spec['freq'][0]], labs)
+    if t == 'multi':
+        return '(pandas multi obj %s)' % labs
+    if t == 'tdindex':
+        return '(pandas timedelta td %s)' % labs
+    if t == 'objindex':
+        return '(pandas index obj %s)' % labs
     return '(pandas datetime dt %s)' % labs
 
 
@@ -227,6 +253,10 @@ def span_kind_name(span):
         return 'PeriodIndex'
     if isinstance(span, pd.DatetimeIndex):
         return 'DatetimeIndex'
+    if isinstance(span, pd.MultiIndex):
+        return 'MultiIndex'
+    if isinstance(span, pd.TimedeltaIndex):
+        return 'TimedeltaIndex'
     if isinstance(span, pd.RangeIndex):
         return 'RangeIndex'
     if isinstance(span, pd.Index):
@@ -241,6 +271,8 @@ def pd_dtype_name(d):
         return 'period[%d]' % FREQ.get(s[7], 0)
     if s.startswith('datetime64'):
         return 'datetime'
+    if s.startswith('timedelta64'):
+        return 'timedelta'
     return s                                     # float64 int64 uint64 bool str object
 
 
@@ -252,7 +284,8 @@ def obs_table(df):
     import pandas as pd
     ix = df.index
     kind = ('RangeIndex' if isinstance(ix, pd.RangeIndex) else 'PeriodIndex' if isinstance(ix, pd.PeriodIndex)
-            else 'DatetimeIndex' if isinstance(ix, pd.DatetimeIndex) else 'Index' if type(ix) is pd.Index else type(ix).__name__)
+            else 'DatetimeIndex' if isinstance(ix, pd.DatetimeIndex) else 'MultiIndex' if isinstance(ix, pd.MultiIndex)
+            else 'TimedeltaIndex' if isinstance(ix, pd.TimedeltaIndex) else 'Index' if type(ix) is pd.Index else type(ix).__name__)
     return {'index': {'kind': kind, 'dtype': pd_dtype_name(ix.dtype), 'labels': [enc(x) for x in list(ix)]},
             'cols': [[str(c), pd_dtype_name(df[c].dtype), [enc(x) for x in list(df[c].values)]] for c in df.columns]}
 
@@ -450,6 +483,7 @@ let list_of = function L l -> l | _ -> failwith "list"
 let bool_of x = atom x <> "0"
 let pos_of x = match z_of_sx x with Zpos p -> p | _ -> failwith "positive"
 
+let atom_of = function L [A "i"; z] -> AInt (z_of_sx z) | L [A "s"; h] -> AStr (str_of h) | _ -> failwith "atom"
 let cell_of = function
   | A "none" -> CNone | A "nz" -> CFlt FNegZero | A "nan" -> CFlt FNaN | A "pinf" -> CFlt FPInf | A "ninf" -> CFlt FNInf
   | L [A "i"; z] -> CInt (z_of_sx z)
@@ -457,7 +491,8 @@ let cell_of = function
   | L [A "ff"; m; e] -> CFlt (FFrac (z_of_sx m, pos_of e))
   | L [A "b"; b] -> CBool (bool_of b)
   | L [A "s"; h] -> CStr (str_of h)
-  | L [A "tup"; a; b] -> CTup (z_of_sx a, z_of_sx b)
+  | L [A "tup"; a; b] -> CTup (atom_of a, atom_of b)
+  | L [A "td"; n] -> CTd (z_of_sx n)
   | L [A "per"; f; o] -> CPer (z_of_sx f, z_of_sx o)
   | L [A "ts"; n] -> CTs (z_of_sx n)
   | _ -> failwith "cell"
@@ -465,8 +500,9 @@ let cells_of x = List.map cell_of (list_of x)
 let ndt_of = function A "F" -> NFloat | A "I" -> NInt | A "B" -> NBool | A "S" -> NStr | A "O" -> NObj | _ -> failwith "ndt"
 let pdt_of = function
   | A "f64" -> PFloat64 | A "i64" -> PInt64 | A "u64" -> PUInt64 | A "bool" -> PBool | A "str" -> PStrDt | A "obj" -> PObject
-  | A "dt" -> PDatetime | L [A "per"; f] -> PPeriod (z_of_sx f) | _ -> failwith "pdt"
-let ikind_of = function A "range" -> KRange | A "index" -> KIndex | A "period" -> KPeriodIndex | A "datetime" -> KDatetimeIndex | _ -> failwith "ikind"
+  | A "dt" -> PDatetime | A "td" -> PTimedelta | L [A "per"; f] -> PPeriod (z_of_sx f) | _ -> failwith "pdt"
+let ikind_of = function A "range" -> KRange | A "index" -> KIndex | A "period" -> KPeriodIndex | A "datetime" -> KDatetimeIndex
+  | A "multi" -> KMultiIndex | A "timedelta" -> KTimedeltaIndex | _ -> failwith "ikind"
 let span_of = function
   | L [A "range"; cs] -> { spkind = SRange; splabels = cells_of cs }
   | L [A "list"; cs] -> { spkind = SList; splabels = cells_of cs }
@@ -500,15 +536,17 @@ let jcell = function
   | CInt z -> "[\"i\"," ^ zstr z ^ "]"
   | CBool b -> if b then "[\"b\",true]" else "[\"b\",false]"
   | CStr s -> "[\"s\"," ^ jstr (hex (string_of_cl s)) ^ "]"
-  | CTup (a, b) -> "[\"tup\"," ^ zstr a ^ "," ^ zstr b ^ "]"
+  | CTup (a, b) -> let ja = function AInt z -> zstr z | AStr s -> jstr (hex (string_of_cl s)) in "[\"tup\"," ^ ja a ^ "," ^ ja b ^ "]"
+  | CTd n -> "[\"td\"," ^ zstr n ^ "]"
   | CPer (f, o) -> "[\"per\"," ^ zstr f ^ "," ^ zstr o ^ "]"
   | CTs n -> "[\"ts\"," ^ zstr n ^ "]"
 let jname s = jstr (hex (string_of_cl s))
 let pdt_name = function
   | PFloat64 -> "float64" | PInt64 -> "int64" | PUInt64 -> "uint64" | PBool -> "bool" | PStrDt -> "str" | PObject -> "object"
-  | PDatetime -> "datetime" | PPeriod f -> "period[" ^ zstr f ^ "]"
+  | PDatetime -> "datetime" | PTimedelta -> "timedelta" | PPeriod f -> "period[" ^ zstr f ^ "]"
 let ndt_name = function NFloat -> "float" | NInt -> "int" | NBool -> "bool" | NStr -> "str" | NObj -> "object"
 let ikind_name = function KRange -> "RangeIndex" | KIndex -> "Index" | KPeriodIndex -> "PeriodIndex" | KDatetimeIndex -> "DatetimeIndex"
+  | KMultiIndex -> "MultiIndex" | KTimedeltaIndex -> "TimedeltaIndex"
 let skind_name = function SRange -> "range" | SList -> "list" | STuple -> "tuple" | SNdarray -> "nparr" | SPandas (k, _) -> ikind_name k
 let exn_name = function
   | ValueError -> "ValueError" | IndexError -> "IndexError" | KeyError -> "KeyError" | AttributeError -> "AttributeError"
@@ -663,7 +701,7 @@ def run_model(lines, timeout=900):
 
 # --------------------------------------------------------------------------- encoding of cases for the driver
 NDT = {'float': 'F', 'int': 'I', 'bool': 'B', 'str': 'S', 'object': 'O'}
-PDT = {'float64': 'f64', 'int64': 'i64', 'uint64': 'u64', 'bool': 'bool', 'str': 'str', 'object': 'obj', 'datetime': 'dt'}
+PDT = {'float64': 'f64', 'int64': 'i64', 'uint64': 'u64', 'bool': 'bool', 'str': 'str', 'object': 'obj', 'datetime': 'dt', 'timedelta': 'td'}
 
 
 def sx_names(ns):
@@ -728,7 +766,7 @@ def sx_sym(s):
 def modellable(case, o):
     """Inputs the Gallina model can represent at all (Latin-1 text, tabulated cell kinds)."""
     def cells_ok(cs):
-        return all(c[0] != 'other' and (c[0] != 's' or latin1(c[1])) for c in cs)
+        return all(c[0] != 'other' and (c[0] != 's' or latin1(c[1])) and (c[0] != 'tup' or all(latin1(a) for a in c[1:3] if isinstance(a, str))) for c in cs)
     k = case['kind']
     if o is None or o.get('timeout'):
         return False
@@ -956,9 +994,14 @@ def oracle(case, o):
             if 'raise' in rt:
                 bad('from_dataframe', 'roundtrip', rt['raise'], 'from_dataframe of the exported table raised %s inside the round-trip guard' % rt['raise'])
             else:
-                if len(rt['span']['labels']) != len(pre['span']['labels']) or not all(
-                        a == b or values_equal(a, b) for a, b in zip(rt['span']['labels'], o['table']['index']['labels'])):
-                    bad('from_dataframe', 'span', 'not-reproduced', 'span %s became %s' % (pre['span']['labels'], rt['span']['labels']))
+                want, got, exported = pre['span']['labels'], rt['span']['labels'], o['table']['index']['labels']
+
+                def same(xs, ys):
+                    return len(xs) == len(ys) and all(a == b or values_equal(a, b) for a, b in zip(xs, ys))
+                # list(new.span) against list(old.span), element by element in order; where the export already rewrote the labels
+                # (reported there, at the index) the new span must at least be the exported index, in order
+                if not same(got, want) and not (not same(exported, want) and same(got, exported)):
+                    bad('from_dataframe', 'span', 'not-reproduced', 'span %s became %s' % (want[:8], got[:8]))
                 new = {kk: cs for kk, _, cs in rt['vars']}
                 for name, _, cells in data_cols:
                     if name not in new:
@@ -1128,6 +1171,38 @@ def span_specs(nmax):
     ]
     for labs in odd:
         specs.append({'type': 'list', 'labels': labs})
+    # pandas index objects in any order, with repeated labels: MultiIndex (two levels, int / str), TimedeltaIndex, PeriodIndex,
+    # DatetimeIndex, object Index; lists of tuples / Timedeltas
+    day = 86400 * 10 ** 9
+    terms = ['spring', 'summer', 'autumn']
+    multis = [
+        [['tup', y, t] for y in (2000, 2001, 2002) for t in terms],                  # chronological, not lexsorted
+        [['tup', y, t] for y in (2000, 2001) for t in (1, 2, 3)],                    # lexsorted
+        [['tup', 2, 'b'], ['tup', 1, 'b'], ['tup', 2, 'a'], ['tup', 1, 'a']],
+        [['tup', 'x', 2], ['tup', 'x', 1], ['tup', 'a', 3]],
+        [['tup', 1, 'a'], ['tup', 1, 'a'], ['tup', 0, 'z']],                           # a repeated row
+        [['tup', 3, 'c'], ['tup', 2, 'b'], ['tup', 1, 'a']],                           # descending
+        [['tup', 'q', 'z'], ['tup', 'q', 'a']], [['tup', 1, 'a']], [],
+        [['tup', 2000, t] for t in terms], [['tup', y, 'autumn'] for y in (2002, 2000, 2001)],
+    ]
+    for labs in multis:
+        specs.append({'type': 'multi', 'labels': labs})
+        if labs:
+            specs.append({'type': 'list', 'labels': labs})                            # the same tuples as a plain list: object Index
+    for ks in ([3, 1, 2], [1, 2, 3], [1, 1], [], [5], [2, 1, 2]):
+        specs.append({'type': 'tdindex', 'labels': [['td', k * day] for k in ks]})
+        specs.append({'type': 'dtindex', 'labels': [['ts', TS_D0 + k * day] for k in ks]})
+        specs.append({'type': 'perindex', 'freq': 'Y', 'labels': [['per', 1, PER_Y0 + k] for k in ks]})
+        specs.append({'type': 'perindex', 'freq': 'Q', 'labels': [['per', 2, PER_Q0 + k] for k in ks]})
+        specs.append({'type': 'pdindex', 'labels': [['i', k] for k in ks]})
+        specs.append({'type': 'objindex', 'labels': [['i', k] for k in ks]})
+        if ks:
+            specs.append({'type': 'list', 'labels': [['td', k * day] for k in ks]})
+    specs.append({'type': 'objindex', 'labels': [['i', 3], ['s', 'a'], ['tup', 1, 2], ['ff', 5, 1]]})
+    specs.append({'type': 'objindex', 'labels': [['s', 'b'], ['s', 'a'], ['s', 'b']]})
+    specs.append({'type': 'objindex', 'labels': [['s', 'z'], ['i', 1], ['s', 'a'], ['i', 0]]})
+    specs.append({'type': 'pdindex', 'labels': [['s', 'c'], ['s', 'a'], ['s', 'b'], ['s', 'a']]})
+    specs.append({'type': 'list', 'labels': [['tup', 2, 'b'], ['tup', 'a', 1]]})
     return specs
 
 
@@ -1258,10 +1333,21 @@ def gen(rng, tier):
         for _ in range(reps):
             cases.append(gen_export(rng, spec, not quick))
     for spec in specs[:14 * 4:3] if quick else specs[:14 * 6:2]:
-        if spec['type'] in ('range', 'list', 'period') and span_len(spec) >= 1:
+        if spec['type'] in ('range', 'list', 'period') and span_len(spec) >= 1 and all(l[0] in ('i', 's', 'per') for l in span_labels(spec)):
             n = span_len(spec)
             cases.append({'kind': 'solved', 'script': rng.choice(SCRIPTS), 'span': spec, 'x': cells_for(rng, 'float', n)[:n],
                           'max_iter': rng.choice([0, 1, 100]), 'flags': [True, True, rng.random() < 0.5]})
+    for spec in [sp for sp in specs if sp['type'] in ('multi', 'perindex', 'tdindex', 'dtindex') and span_len(sp) >= 2]:
+        n = span_len(spec)
+        cases.append({'kind': 'solved', 'script': rng.choice(SCRIPTS), 'span': spec, 'x': cells_for(rng, 'float', n)[:n],
+                      'max_iter': rng.choice([1, 100]), 'flags': [rng.random() < 0.5, rng.random() < 0.5, rng.random() < 0.5]})
+    for _ in range(12 if quick else 80):
+        rows = [['tup', y, t] for y in rng.sample([1999, 2000, 2001, 'a', 'b'], 2) for t in rng.sample(['spring', 'summer', 'autumn', 1, 2], 3)]
+        if rng.random() < 0.5:
+            rng.shuffle(rows)
+        if rng.random() < 0.3:
+            rows.append(list(rows[0]))
+        cases.append(gen_export(rng, {'type': 'multi', 'labels': rows}, not quick))
     # plain containers (and VectorContainer.to_dataframe applied to a model object: status and iterations come first)
     for spec in specs:
         for _ in range(2 if quick else 10):
